@@ -27,6 +27,10 @@ func lowestCommonDomainID(nodeSet node_info.NodeSet, levels []kaiv1alpha1.Topolo
 	var leastCommonLevel string
 	if len(topologyConstraint.PreferredLevel) > 0 {
 		leastCommonLevel = topologyConstraint.PreferredLevel
+	} else {
+		// Without a preferred level the required level is the lowest level the allocation looks at: a common
+		// domain below it would leave the domains of the required level outside the sub-tree that is evaluated
+		leastCommonLevel = topologyConstraint.RequiredLevel
 	}
 
 	var domainParts []string
